@@ -136,6 +136,23 @@ func c10Scenarios(tier string) []Scenario {
 				Calls: []CallSpec{{ID: 0, Match: MatchGood, CancelAt: -1, After: -1}, {ID: 0, Match: MatchGood, CancelAt: -1, After: 0}},
 				Dgs:   []DgSpec{{At: 1, Kind: DgGood}, {At: at, Kind: DgBad}, {At: at + 1, Kind: DgGood}}}, "reuse")
 		}
+		// (4b) duplicates: byte-identical datagrams, before and during a call
+		alphaD := []DgSpec{{Kind: DgGood, ID: 0}, {Kind: DgBad, ID: 0}, {Kind: DgDup}}
+		for _, seq := range dgSequences(alphaD, seqLen+1) {
+			if len(seq) == 0 || seq[0].Kind == DgDup {
+				continue
+			}
+			for _, start := range []int64{0, 1, 2} {
+				for _, m := range []MatchKind{MatchNil, MatchGood} {
+					d := append([]DgSpec{}, seq...)
+					for i := range d {
+						d[i].At = int64(i)
+					}
+					add(&ClientScenario{V6: v6, T: 6, Tries: 1, BufCap: 1, CloseAt: -1, Bound: bound - 1,
+						Calls: []CallSpec{{ID: 0, Match: m, StartAt: start, CancelAt: -1, After: -1}}, Dgs: d}, "duplicates")
+				}
+			}
+		}
 		// (5) many callers: 4 (quick) / 5 (thorough) concurrent callers, two of them colliding
 		{
 			nc := 4
